@@ -75,7 +75,7 @@ def handleRace (args : List String) : String :=
           let s0 := run (init ⟨ip, port⟩ maxp (tcp = "1")) ops
           if s0.latchOn ∧ (s0.expected = 0 ∨ ssrc = s0.expected) then
             let bits := (sched.toList ++ "rsrsrsrsrsrsrsrsrsrs".toList).map (fun c => c == 'r')
-            let y := runSched (recvCrit a ssrc seq ts m) A { st := s0, r := .start, a := .start } bits
+            let y := runSched (recvCrit a ssrc seq ts m) A (Sys.init s0) bits
             if rDone y.r ∧ aDone y.a then (showSt y.st "-" none).1 else "not-finished"
           else "race-model-needs-latching-and-expected-ssrc-rtp"
         | none => "bad-api"
@@ -103,23 +103,29 @@ def handle (stream : String) (args : List String) : String :=
     | ["init", ip, port, maxp, _] =>
       match ip.toNat?, port.toNat?, maxp.toNat? with
       | some ip, some port, some maxp =>
-        let pub (s : St) : String := s!"{showAddr s.remote}/{b01 s.rtpLatched}"
+        let pub (s : St) : String :=
+          s!"{showAddr s.remote}/{b01 s.rtpLatched}/{s.expected}/{match s.rtcpRemote with | none => "-" | some a => showAddr a}"
         -- ops before `|` happen inside `set_remote_description` and are applied silently
         let rec go (s : St) (silent : Bool) (ops : List String) (acc : List String) : List String :=
           match ops with
           | [] => acc.reverse
           | "|" :: rest => go s false rest (pub s :: acc)
           | t :: rest =>
-            match parseOp t with
+            -- `~op`: applied inside the same API call as the next op, no observation of its own
+            let quiet := t.startsWith "~"
+            match parseOp (if quiet then (t.drop 1).toString else t) with
             | none => ("bad-op" :: acc).reverse
-            | some o => let s' := step s o; go s' silent rest (if silent then acc else pub s' :: acc)
+            | some o => let s' := step s o; go s' silent rest (if silent || quiet then acc else pub s' :: acc)
         " ".intercalate (go (init ⟨ip, port⟩ maxp false) true ops [])
       | _, _, _ => "bad-init"
     | _ => "bad-init"
   | "race", args => handleRace args
   | "writers", sites => " ".intercalate (sites.map fun s =>
       match s.splitOn "=" with
-      | [f, n] => if RtcModel.Latch.modelledWriters f = n.toNat? then s!"{f}=ok" else s!"{f}=UNMODELLED-WRITER"
+      | [f, n] =>
+        match f.splitOn "#" with
+        | [file, "new"] => if RtcModel.Latch.modelledCreators file = n.toNat? then s!"{f}=ok" else s!"{f}=UNMODELLED-CONSTRUCTION-SITE"
+        | _ => if RtcModel.Latch.modelledWriters f = n.toNat? then s!"{f}=ok" else s!"{f}=UNMODELLED-WRITER"
       | _ => "bad-site")
   | _, _ => "bad-stream"
 
